@@ -36,13 +36,20 @@ from harness import rx_sequences as S
 from harness.common import Ctx, InfraError, Toks, call, toks
 
 LEVEL = "proof"
-RULE = ("cases = (a) strings that are sequences of the documented tokens: every sequence of length ≤3 over the 16 "
+RULE = ("cases = (0) round 3, run first: 1000 (thorough 8000) PROGRAMS of 1–5 calls, each over an alphabet no earlier call "
+        "of the process has touched (1–3 random symbols out of 88 incl. digits, re-special punctuation, non-ASCII; usually "
+        "exactly the default alphabet of the first expression): 0–3 preparatory calls out of validate(r) / validate(r') / a "
+        "tiny from_regex / validate or from_regex of a string outside the grammar (must raise a RegexException) / "
+        "from_regex(r) with the default alphabet, then isequal+issubset+issuperset(r, r', Σ), sometimes again, swapped, or "
+        "over Σ∪{x} before / after; `()` inserted into 70 % of the expressions; every step judged on its own (grammar by "
+        "construction and by the recogniser, comparisons by derivatives); a failing program is re-run in a fresh "
+        "interpreter before it is reported and is its own replay; (a) strings that are sequences of the documented tokens: every sequence of length ≤3 over the 16 "
         "texts ( ) | & ^ * + ? {1,2} {0,0} {,} {2,} . a b blank and every sequence of length 4 (thorough 5) over the 12 "
         "texts ( ) | & ^ * + ? {1,2} . a blank, then random longer ones shaped to be nearly valid — each with the "
         "default and with an explicit alphabet; (b) malformed strings (lone braces, odd bounds, white space): "
         "model=code, and for numeric brace groups the agreement / regex-error-type rule on the real code; (c) pairs of "
         "ASTs rendered to strings compared over a common explicit alphabet (1–7 symbols, incl. 1 , - é 𝒳); "
-        "non-trivial = (a) ≥3 tokens with at least one parenthesis or operator, "
+        "non-trivial = (0) a program of ≥2 calls, (a) ≥3 tokens with at least one parenthesis or operator, "
         "(c) both languages non-empty and not both trivial; distinct = distinct strings / pairs")
 ASSUMPTIONS = [
     "documented tokens in the grammar part: symbols, operators, parentheses, {m,n} {m,} {,n} with ASCII decimal bounds, blanks; "
@@ -50,6 +57,8 @@ ASSUMPTIONS = [
     "(a lone brace lexed as a symbol and non-numeric bounds are outside the documented syntax: model = code only)",
     "comparisons take an explicit common alphabet (with input_symbols=None each regex infers its own alphabet, F17)",
     "Python re / int() are modelled by hand (trusted)",
+    "the property is about inputs, so no answer may depend on earlier calls: programs of calls are judged step by step by "
+    "history-free oracles; the Lean model is a pure function (it has no history to compare)",
 ]
 EXPLANATION = ("C11_* theorems: validate_tokens accepts exactly the token grammar, which is exactly when the model compiles; "
                "errors are RegexException subclasses; the comparison helpers reduce to language (in)equality via C10. "
@@ -393,7 +402,7 @@ def fresh_alphabet_sequences(ctx: Ctx):
     used: set = set()
     history: List[dict] = []
     failing: list = []
-    for _ in range(ctx.budget(1000, 15000)):
+    for _ in range(ctx.budget(1000, 8000)):
         prog = S.gen_program(rng, used, "cmp", rewrite_equiv)
         if prog is None:
             ctx.stat("seq_no_fresh_alphabet")
